@@ -154,7 +154,8 @@ pub fn judge(c: &Case, emit: bool) -> Judged {
             detail: e.msg.clone(),
         },
         (Ok(ok), Ok(l)) => {
-            let item = ok.state.type_registry().get(&ItemPath::from("m::T"));
+            let state_guard = ok.state.lock().unwrap();
+            let item = state_guard.type_registry().get(&ItemPath::from("m::T"));
             let (sz, al) = item.map(|i| (i.size(), i.alignment())).unwrap_or((None, None));
             if sz != Some(l.size) || al != Some(l.align) {
                 Judged::Disagree {
@@ -529,7 +530,8 @@ pub fn replay(ctx: &mut Ctx, case: &Value) {
         ),
         (Ok(ok), Ok(l)) => {
             let p = ItemPath::from(format!("m::{}", def.name).as_str());
-            let item = ok.state.type_registry().get(&p);
+            let state_guard = ok.state.lock().unwrap();
+            let item = state_guard.type_registry().get(&p);
             let got = item.map(|i| (i.size(), i.alignment()));
             if got != Some((Some(l.size), Some(l.align))) {
                 ctx.violation("C03/accepted/size-or-alignment-differs", &format!("{got:?} vs {l:?}"), case.clone());
